@@ -524,6 +524,29 @@ def run(tier, seed, replay):
                     except Exception as e:
                         if type(e).__name__ != "IntegratorException":
                             v(f"raises:pulse-from-rest:{method}", f"{type(e).__name__}: {e}"[:200], {"method": method})
+            # what a callback e_op keeps or returns is the state of its time, not the integrator's work buffer
+            for method in se_methods:
+                ok_ = {"method": method, "store_states": False, "normalize_output": False, "progress_bar": ""}
+                if method not in ("diag", "krylov"):
+                    ok_.update(atol=1e-10, rtol=1e-9, nsteps=200000)
+                try:
+                    with warnings.catch_warnings():
+                        warnings.simplefilter("ignore")
+                        with core.time_limit(120):
+                            Hk_ = 0.5 * qutip.sigmaz() + 0.3 * qutip.sigmax()
+                            pk0_ = 1.7 * qutip.Qobj(np.array([[0.6], [0.8j]]))
+                            tk_ = [0.0, 0.4, 0.9, 1.5]
+                            rk_ = qutip.sesolve(Hk_, pk0_, tk_, e_ops=[lambda t, st: st], options=ok_)
+                    rep.evaluations += 1
+                    rep.count("callback-keeps-state/" + method)
+                    ek_ = max(np.abs(st_.full() - sla.expm(-1j * Hk_.full() * t_) @ pk0_.full()).max() for st_, t_ in zip(rk_.expect[0], tk_))
+                    if ek_ > 2e-5:
+                        v(f"callback-state:{method}", f"sesolve({method}) with e_ops=[lambda t, state: state]: the states the callback returned differ from exp(-iHt) psi0 at their times by {ek_:.2e} (they share the integrator's buffer)", {"method": method})
+                except core.CaseTimeout:
+                    raise
+                except Exception as e:
+                    if type(e).__name__ != "IntegratorException":
+                        v(f"raises:callback-state:{method}", f"{type(e).__name__}: {e}"[:200], {"method": method})
             # a result is a value: carrying the solver on with step() after run() does not change the final state an earlier
             # result holds (states not stored, output not normalised)
             Hc2_ = 0.5 * qutip.sigmaz() + 0.3 * qutip.sigmax()
